@@ -321,6 +321,7 @@ def _inline_one(fn, blk, idx, h, serial, repo):
     hfirst = min([_line(e) for _, _, e in _all_elems(h) if _line(e)] or [0])
     hexit = h.get("exit")
     newblocks = []
+    const_returns = []
 
     def callee_ref(r):
         t = tuple(r)
@@ -346,6 +347,18 @@ def _inline_one(fn, blk, idx, h, serial, repo):
                     elems[i] = e2
                     extra.append({"cls": "BinaryOperator", "op": "=", "kids": [[hb["id"], i], e["kids"][0]], "ty": h.get("ret"), "loc": e.get("loc", ""),
                                   "text": "%s" % e.get("text", "return")})
+                    # a constant answer (return (-1), return (0), return (NULL)): remembered for the threading below
+                    rv = hb["elems"][e["kids"][0][1]] if e["kids"][0][0] == hb["id"] and 0 <= e["kids"][0][1] < len(hb["elems"]) else None
+                    seen_rv = 0
+                    while rv is not None and rv.get("val") is None and rv.get("cls") in ("ImplicitCastExpr", "CStyleCastExpr", "ParenExpr") and rv.get("kids") and rv["kids"][0] is not None and seen_rv < 6:
+                        k0 = rv["kids"][0]
+                        rv = hb["elems"][k0[1]] if k0[0] == hb["id"] and 0 <= k0[1] < len(hb["elems"]) else None
+                        seen_rv += 1
+                    if rv is not None and rv.get("val") is not None and rv.get("cls") != "DeclRefExpr":
+                        try:
+                            const_returns.append((nb, int(rv["val"])))
+                        except (TypeError, ValueError):
+                            pass
                 else:
                     elems[i] = {"cls": "NullStmt", "loc": e.get("loc", ""), "text": e.get("text", "return"), "ty": "void"}
         elems.extend(extra)
@@ -398,6 +411,23 @@ def _inline_one(fn, blk, idx, h, serial, repo):
                 return None
             return int({"==": a == b2, "!=": a != b2, "<": a < b2, "<=": a <= b2, ">": a > b2, ">=": a >= b2}[e["op"]])
         return None
+    # a return of a constant that the caller tests at once (`if (helper(..))`, `if (helper(..) != 0)`): the copy's return jumps
+    # straight to the side of the test its constant decides -- the second half of the calling block holds nothing but that
+    # test, so nothing is skipped -- and a failure inside the helper no longer "reaches" the caller's success path
+    pure2 = all((e.get("cls") in PURE_CLS or (e.get("cls") == "BinaryOperator" and e.get("op") in ("==", "!=", "<", "<=", ">", ">=")) or
+                 (e.get("cls") == "UnaryOperator" and e.get("op") in ("!", "-"))) for e in B2["elems"][1:])
+    if not void and pure2 and len(B2.get("succs") or []) == 2 and (B2.get("term") or {}).get("cls") != "SwitchStmt":
+        cref2 = (B2.get("term") or {}).get("cond")
+        if cref2 is None and B2["elems"]:
+            cref2 = [b2id, len(B2["elems"]) - 1]
+        if cref2 is not None and cref2[0] == b2id:
+            for nb, cv in const_returns:
+                saved = B2["elems"][0]
+                B2["elems"][0] = {"cls": "IntegerLiteral", "val": cv, "ty": saved.get("ty")}
+                v = value(cref2)
+                B2["elems"][0] = saved
+                if v is not None and B2["succs"][0 if v else 1] is not None:
+                    nb["succs"] = [(B2["succs"][0 if v else 1] if sx == b2id else sx) for sx in nb["succs"]]
     for nb in newblocks:
         if len(nb.get("succs") or []) != 2 or (nb.get("term") or {}).get("cls") == "SwitchStmt":
             continue
